@@ -104,3 +104,28 @@ func Harness_C05_deferCancel() {
 	zzsym.Assert(zzsym.Quiesce() == 0, "nothing is left running after a cancelled streamed operation")
 	zzsym.Reach("c05.defercancel")
 }
+
+func Setup_C05_deferFaults() { Setup_C13_defer() }
+
+// Harness_C05_deferFaults: an operation with deferred fragments whose
+// resolvers fail or yield null at one [two] position(s) - including a
+// non-null sibling that nulls the very object carrying a deferred group -
+// drained by a streaming transport without any cancellation: once every
+// resolver has returned the response function ends the sequence (no payload
+// is waited for that was never started) and nothing is left running.
+func Harness_C05_deferFaults() {
+	fi := zzsym.Choice("family", len(c13Families))
+	fam := c13Families[fi]
+	vars := map[string]any{}
+	for _, v := range fam.flags {
+		vars[v] = true
+	}
+	w := newWorld(zzsym.Param("budget", 1), false)
+	doc := c13Docs[fi]
+	got := runOp(w, doc, doc.Operations[0], vars)
+	zzsym.Assert(len(got.resps) >= 1 && len(got.resps) <= 16, "the payload sequence ends")
+	last := got.resps[len(got.resps)-1]
+	zzsym.Assert(last.HasNext == nil || !*last.HasNext, "the last payload does not announce another one")
+	zzsym.Assert(zzsym.Quiesce() == 0, "nothing is left running after the last payload")
+	zzsym.Reach("c05.deferfaults")
+}
